@@ -128,6 +128,35 @@ class IClass:
         return f"<iclass {self.name}>"
 
 
+class _Look:
+    """how a loop invariant reads the function's locals: by name, or by role - the unique modified local of a kind
+    ("int" counter, "seq" sequence written by index, "map" dictionary) - so that renaming a temporary does not break the proof"""
+
+    def __init__(self, env, modifies):
+        self.env, self.modifies = env, list(modifies)
+
+    def __call__(self, name):
+        try:
+            return self.env.lookup(name)
+        except KeyError:
+            raise HarnessIncomplete(f"loop invariant reads the local '{name}' which the function does not define (restructured code)")
+
+    def kind(self, kind):
+        from . import modeb
+        def is_kind(v):
+            if kind == "seq":
+                return isinstance(v, modeb.SymSeq)
+            if kind == "map":
+                return isinstance(v, (modeb.SymMap, IDict))
+            if kind == "int":
+                return (isinstance(v, int) and not isinstance(v, bool)) or (sym.is_sym(v) and z3.is_int(v))
+            return False
+        hits = [nm for nm in self.modifies if self.env.has(nm) and is_kind(self.env.lookup(nm))]
+        if len(hits) != 1:
+            raise HarnessIncomplete(f"loop invariant needs exactly one modified local of kind {kind}, the loop has {hits}")
+        return self.env.lookup(hits[0])
+
+
 class HarnessIncomplete(SymError):
     """the proof harness does not supply something the code under contract reads (undecided, never a violation)"""
 
@@ -744,9 +773,26 @@ class Interp:
         if spec is None:
             raise SymError(f"loop #{ordinal} of {key[0]} runs over a symbolic length and has no invariant")
         inv, modifies = spec["inv"], spec["modifies"]
+        if modifies is None:
+            # the locals the loop body assigns (also through a subscript), minus the loop targets: taken from the AST, so that the
+            # contract does not depend on how the function names its temporaries
+            targets = {x.id for x in ast.walk(st.target) if isinstance(x, ast.Name)}
+            modifies = []
+            for node in st.body:
+                for x in ast.walk(node):
+                    tg = []
+                    if isinstance(x, ast.Assign):
+                        tg = x.targets
+                    elif isinstance(x, (ast.AugAssign, ast.AnnAssign)):
+                        tg = [x.target]
+                    for t in tg:
+                        while isinstance(t, (ast.Subscript, ast.Attribute)):
+                            t = t.value
+                        if isinstance(t, ast.Name) and t.id not in targets and t.id not in modifies and env.has(t.id):
+                            modifies.append(t.id)
         ctx = self.world.ctx
         n = sym.to_arith(n)
-        look = lambda name: env.lookup(name)
+        look = _Look(env, modifies)
         for name in modifies:
             env.vars[name] = modeb.abstract_value(name, env.lookup(name))
         branch = self.path.choose(2)
